@@ -139,3 +139,121 @@ package keeper
 //@   loop 0 invariant 0 <= $i && $i <= len(messages)
 //@   loop 0 invariant forall j int :: 0 <= j && j < $i ==> len(msgSigners(messages[j])) == 1 && msgSigners(messages[j])[0] == auth
 //@   assigns \everything
+
+//@ func (Keeper) GetAllValidators
+//@   ensures err == nil                                                                                                       // A-STORE
+//@   ensures len(validators) == card(Validators)                                                                              // C13: lists_every_stored_validator_once
+//@   ensures forall j int :: 0 <= j && j < len(validators) ==> (exists k bytes :: Validators[k] == Some(validators[j]))        // C13: elements_are_stored_validators
+//@   ensures forall k bytes :: Validators[k] != None ==> (exists j int :: 0 <= j && j < len(validators) && validators[j] == val(Validators[k]))   // C13: no_stored_validator_missing
+//@   walk 0 invariant len(validators) == $i
+//@   walk 0 invariant forall t int :: 0 <= t && t < $i ==> Validators[$key(t)] == Some(validators[t])
+//@   assigns \nothing
+
+//@ func (MsgServer) AddValidator
+//@   let va := addrBytes(2, req.ValidatorAddress)
+//@   let pk := val(req.Pubkey).cachedValue
+//@   let cons := pkAddress(pk)
+//@   ensures err == nil ==> req.Authority == ms.authority                                                                     // C12: authority_only
+//@   ensures err == nil ==> old(Params) != None && card(old(Validators)) < val(old(Params)).MaxValidators                       // C13: capacity_respected
+//@   ensures err == nil ==> old(Validators)[va] == None                                                                       // C13: operator_not_registered
+//@   ensures err == nil ==> old(ValidatorsByConsAddr)[cons] == None || old(Validators)[val(old(ValidatorsByConsAddr)[cons])] == None   // C13: consensus_key_not_in_use
+//@   ensures err == nil ==> Validators == old(Validators)[va := Validators[va]] && Validators[va] != None
+//@        && val(Validators[va]).ConsPower == 1 && val(Validators[va]).OperatorAddress == valStr(va)
+//@        && val(Validators[va]).ConsensusPubkey != None && val(val(Validators[va]).ConsensusPubkey).cachedValue == pk           // C13: stores_validator_with_power_one
+//@   ensures err == nil ==> ValidatorsByConsAddr == old(ValidatorsByConsAddr)[cons := Some(va)]                                // C13: key_index_follows
+//@   ensures err == nil ==> LastValidatorPowers == old(LastValidatorPowers) && Params == old(Params)
+//@   assigns Validators[va], ValidatorsByConsAddr[cons], events
+
+//@ func (MsgServer) RemoveValidator
+//@   let va := addrBytes(2, req.ValidatorAddress)
+//@   ensures err == nil ==> req.Authority == ms.authority                                                                     // C12: authority_only
+//@   ensures err == nil ==> old(Validators)[va] != None && Validators == old(Validators)[va := Validators[va]] && Validators[va] != None
+//@        && val(Validators[va]).ConsPower == 0 && val(Validators[va]).ConsensusPubkey == val(old(Validators)[va]).ConsensusPubkey
+//@        && val(Validators[va]).OperatorAddress == val(old(Validators)[va]).OperatorAddress                                    // C13: only_power_set_to_zero
+//@   requires forall k bytes :: Validators[k] != None ==> addrOK(2, val(Validators[k]).OperatorAddress) && addrBytes(2, val(Validators[k]).OperatorAddress) == k   // INV_VAL: records are stored under their operator address
+//@   assigns Validators[va], events
+
+//@ func (Keeper) SetParams
+//@   ensures err == nil ==> Params == Some(params) && card(Validators) <= params.MaxValidators && params.MaxValidators != 0    // C13: max_validators_not_below_current
+//@   assigns Params
+
+//@ func (MsgServer) UpdateParams
+//@   ensures err == nil ==> req.Authority == ms.authority                                                                     // C12: authority_only
+//@   ensures err == nil ==> Params != None && card(Validators) <= val(Params).MaxValidators                                    // C13: max_validators_not_below_current
+//@   assigns Params, *req
+
+//@ func (MsgServer) SpendFeePool
+//@   ensures err == nil ==> req.Authority == ms.authority                                                                     // C12: authority_only
+//@   assigns bank.bal
+
+//@ func (Keeper) RegisterExecutorChangePlan
+//@   opt frame_all
+//@   ensures proposalID == 0 || height == 0 || old(ExecutorChangePlans)[height] != None || !addrOK(2, nextValidator) || !jsonIfaceOK(consensusPubKey) ==> err != nil   // C14: malformed_plan_rejected
+//@   ensures (exists j int :: 0 <= j && j < len(nextExecutors) && !addrOK(1, nextExecutors[j])) ==> err != nil                                                         // C14: bad_executor_address_rejected
+//@   ensures err != nil ==> ExecutorChangePlans == old(ExecutorChangePlans)                                                                                          // C14: rejection_has_no_side_effect
+//@   ensures err == nil ==> ExecutorChangePlans == old(ExecutorChangePlans)[height := ExecutorChangePlans[height]] && ExecutorChangePlans[height] != None
+//@        && val(ExecutorChangePlans[height]).ProposalID == proposalID && val(ExecutorChangePlans[height]).Height == height
+//@        && val(ExecutorChangePlans[height]).NextExecutors == nextExecutors && val(ExecutorChangePlans[height]).Info == info
+//@        && val(ExecutorChangePlans[height]).NextValidator.ConsPower == 1 && val(ExecutorChangePlans[height]).NextValidator.Moniker == moniker
+//@        && val(ExecutorChangePlans[height]).NextValidator.OperatorAddress == valStr(addrBytes(2, nextValidator))
+//@        && val(val(ExecutorChangePlans[height]).NextValidator.ConsensusPubkey).cachedValue == jsonIface(consensusPubKey)                                            // C14: stores_exactly_the_plan
+//@   loop 0 invariant 0 <= $i && $i <= len(nextExecutors)
+//@   loop 0 invariant forall j int :: 0 <= j && j < $i ==> addrOK(1, nextExecutors[j])
+//@   assigns ExecutorChangePlans[height]
+
+//@ func sortNoLongerBonded
+//@   requires forall s bytes :: last[s] != None ==> addrOK(vc, s)
+//@   ensures err == nil                                                                                                                        // C13: never_fails_on_valid_operators
+//@   ensures len(ret0) == card(last)
+//@   ensures forall s bytes :: last[s] != None ==> (exists j int :: 0 <= j && j < len(ret0) && ret0[j] == addrBytes(vc, s))                     // C13,C18: every_key_listed_whatever_the_map_order
+//@   ensures forall j int :: 0 <= j && j < len(ret0) ==> (exists s bytes :: last[s] != None && ret0[j] == addrBytes(vc, s))                     // C13,C18: only_keys_listed
+//@   ensures forall i int, j int :: 0 <= i && i < j && j < len(ret0) ==> bcmp(ret0[j], ret0[i]) != (- 1)                                        // C18: sorted_by_operator_bytes
+//@   loop 0 invariant 0 <= $it && $it <= $mn && index == $it && len(noLongerBonded) == $mn
+//@   loop 0 invariant forall t int :: 0 <= t && t < $it ==> noLongerBonded[t] == addrBytes(vc, $mkey(t))
+//@   assigns \nothing
+
+//@ func (Keeper) getLastValidatorsByAddr
+//@   requires forall k bytes :: LastValidatorPowers[k] != None ==> Validators[k] != None                                                            // INV_VAL: last powers only for stored validators
+//@   requires forall k bytes :: Validators[k] != None ==> addrOK(2, val(Validators[k]).OperatorAddress) && addrBytes(2, val(Validators[k]).OperatorAddress) == k   // INV_VAL: stored under the operator address
+//@   ensures err == nil                                                                                                                            // C13: never_fails_under_invariant
+//@   ensures forall k bytes :: LastValidatorPowers[k] != None ==> ret0[val(Validators[k]).OperatorAddress] == LastValidatorPowers[k]                 // C13: every_bonded_validator_recorded
+//@   ensures forall s bytes :: ret0[s] != None ==> addrOK(2, s) && LastValidatorPowers[addrBytes(2, s)] == ret0[s] && Validators[addrBytes(2, s)] != None
+//@        && val(Validators[addrBytes(2, s)]).OperatorAddress == s                                                                                 // C13: nothing_else_recorded
+//@   walk 0 invariant forall t int :: 0 <= t && t < $i ==> last[val(Validators[$key(t)]).OperatorAddress] == LastValidatorPowers[$key(t)]
+//@   walk 0 invariant forall s bytes :: last[s] != None ==> addrOK(2, s) && LastValidatorPowers[addrBytes(2, s)] == last[s] && Validators[addrBytes(2, s)] != None
+//@        && val(Validators[addrBytes(2, s)]).OperatorAddress == s
+//@   assigns \nothing
+
+// Pre-state invariants of the validator records (INV_VAL), established by InitGenesis / AddValidator / this function:
+//   K1 records are stored under their operator address, K2 last powers exist only for stored validators,
+//   K3 no stored power is negative.
+//@ func (Keeper) ApplyAndReturnValidatorSetUpdates
+//@   let V0 := Validators
+//@   let L0 := LastValidatorPowers
+//@   requires forall k bytes :: Validators[k] != None ==> addrOK(2, val(Validators[k]).OperatorAddress) && addrBytes(2, val(Validators[k]).OperatorAddress) == k   // INV_VAL K1
+//@   requires forall k bytes :: LastValidatorPowers[k] != None ==> Validators[k] != None                                                                          // INV_VAL K2
+//@   requires forall k bytes :: Validators[k] != None ==> val(Validators[k]).ConsPower >= 0                                                                       // INV_VAL K3
+//@   ensures err == nil ==> forall k bytes :: V0[k] != None && val(V0[k]).ConsPower > 0 ==> Validators[k] == V0[k] && LastValidatorPowers[k] == Some(val(V0[k]).ConsPower)   // C13: bonded_validators_recorded_with_their_power
+//@   ensures err == nil ==> forall k bytes :: L0[k] != None && val(V0[k]).ConsPower <= 0 ==> Validators[k] == None && LastValidatorPowers[k] == None                      // C13: removed_validator_gone_by_end_of_block
+//@   ensures err == nil ==> forall k bytes :: LastValidatorPowers[k] != None ==> Validators[k] != None && val(Validators[k]).ConsPower > 0 && LastValidatorPowers[k] == Some(val(Validators[k]).ConsPower)   // C13: last_powers_are_exactly_the_bonded_set
+//@   ensures err == nil ==> forall k bytes :: Validators[k] == V0[k] || (Validators[k] == None && V0[k] != None && val(V0[k]).ConsPower <= 0)                              // C13: only_unbonded_records_deleted
+//@   ensures err == nil ==> forall u int :: 0 <= u && u < len(ret0) ==> ret0[u].Power >= 0                                                                               // C13: no_negative_power_in_batch
+//@   ensures err == nil ==> forall k bytes :: Validators[k] != None ==> val(Validators[k]).ConsPower > 0                                                                   // C13: no_zero_power_record_survives_the_block
+//@   loop 0 invariant 0 <= $i && $i <= len(validators)
+//@   loop 0 invariant forall j int :: 0 <= j && j < $i && validators[j].ConsPower > 0 ==>
+//@        LastValidatorPowers[addrBytes(2, validators[j].OperatorAddress)] == Some(validators[j].ConsPower) && last[validators[j].OperatorAddress] == None
+//@   loop 0 invariant forall k bytes :: LastValidatorPowers[k] == L0[k] || (V0[k] != None && val(V0[k]).ConsPower > 0 && LastValidatorPowers[k] == Some(val(V0[k]).ConsPower))
+//@   loop 0 invariant forall s bytes :: last[s] != None ==> addrOK(2, s) && last[s] == L0[addrBytes(2, s)] && V0[addrBytes(2, s)] != None && val(V0[addrBytes(2, s)]).OperatorAddress == s
+//@   loop 0 invariant forall k bytes :: L0[k] != None && val(V0[k]).ConsPower <= 0 ==> last[val(V0[k]).OperatorAddress] == L0[k]
+//@   loop 0 invariant forall u int :: 0 <= u && u < len(updates) ==> updates[u].Power > 0
+//@   loop 0 invariant forall k bytes :: Validators[k] == V0[k] || (Validators[k] == None && V0[k] != None && L0[k] == None && val(V0[k]).ConsPower <= 0)
+//@   loop 0 invariant forall j int :: 0 <= j && j < $i && validators[j].ConsPower <= 0 && L0[addrBytes(2, validators[j].OperatorAddress)] == None ==> Validators[addrBytes(2, validators[j].OperatorAddress)] == None
+//@   loop 1 invariant 0 <= $i && $i <= len(noLongerBonded)
+//@   loop 1 invariant forall j int :: 0 <= j && j < $i ==> Validators[noLongerBonded[j]] == None && LastValidatorPowers[noLongerBonded[j]] == None
+//@   loop 1 invariant forall k bytes :: Validators[k] == V0[k] || (Validators[k] == None && V0[k] != None && val(V0[k]).ConsPower <= 0)
+//@   loop 1 invariant forall k bytes :: V0[k] != None && val(V0[k]).ConsPower <= 0 && L0[k] == None ==> Validators[k] == None
+//@   loop 1 invariant forall k bytes :: LastValidatorPowers[k] == L0[k] || (V0[k] != None && val(V0[k]).ConsPower > 0 && LastValidatorPowers[k] == Some(val(V0[k]).ConsPower))
+//@        || (LastValidatorPowers[k] == None && L0[k] != None && val(V0[k]).ConsPower <= 0)
+//@   loop 1 invariant forall k bytes :: V0[k] != None && val(V0[k]).ConsPower > 0 ==> LastValidatorPowers[k] == Some(val(V0[k]).ConsPower)
+//@   loop 1 invariant forall u int :: 0 <= u && u < len(updates) ==> updates[u].Power >= 0
+//@   assigns Validators, ValidatorsByConsAddr, LastValidatorPowers
